@@ -536,6 +536,8 @@ def emit_block(block: Block, indent: int = 0, format_options: FormatOptions | No
             if child.key == "" and isinstance(child.value, LiteralZoneValue):
                 child_indent_str = "  " * (indent + 1)
                 lzv = child.value
+                if hasattr(child, "leading_comments"):
+                    lines.extend(_emit_leading_comments(child.leading_comments, indent + 1, strip_comments))
                 opening = f"{child_indent_str}{lzv.fence_marker}"
                 if lzv.info_tag:
                     opening += lzv.info_tag
